@@ -34,6 +34,7 @@ import (
 var (
 	ErrCannotMergeTypes = fmt.Errorf("cannot merge types")
 	ErrEmptyTypesList   = fmt.Errorf("types list is empty")
+	ErrUnknownTypeName  = fmt.Errorf("unknown JSON Schema type")
 )
 
 // Schema is the root schema.
@@ -90,6 +91,12 @@ func (t *TypeList) UnmarshalJSON(value []byte) error {
 			return fmt.Errorf("failed to unmarshal type list: %w", err)
 		}
 
+		for _, name := range s {
+			if !isKnownTypeName(name) {
+				return fmt.Errorf("%w %q", ErrUnknownTypeName, name)
+			}
+		}
+
 		*t = s
 
 		return nil
@@ -101,6 +108,10 @@ func (t *TypeList) UnmarshalJSON(value []byte) error {
 	}
 
 	if s != "" {
+		if !isKnownTypeName(s) {
+			return fmt.Errorf("%w %q", ErrUnknownTypeName, s)
+		}
+
 		*t = []string{s}
 	} else {
 		*t = nil
